@@ -13,14 +13,14 @@ import (
 var stringClasses = []string{"plain", "quote-backslash", "control", "invalid-utf8", "u2028", "nonprintable-unicode", "long", "json-lookalike"}
 
 var stringPool = map[string][]string{
-	"plain":           {"", "a", "plain text", "job", "é", "日本語", "\U0001F600 smile", " leading", "trailing ", "0", "null", "true"},
-	"quote-backslash": {`"`, `\`, `\"`, `"quoted"`, `back\slash`, `\\`, `a"b\c"`, `\u0041`, "'single'", `\n (literal backslash n)`, `end\`},
-	"control":         {"\x00", "\x01\x02", "\n", "\r\n", "\t", "\b\f", "\x1f", "\x7f", "a\x00b", "line1\nline2", "\x1b[31mred\x1b[0m", "\a\v"},
-	"invalid-utf8":    {"\xff", "\xc3\x28", "\xed\xa0\x80", "a\xffb\xfe", "\xf0\x28\x8c\x28", "\xc0\xaf", "ok\x80", "\xe2\x82"},
-	"u2028":           {"\u2028", "\u2029", "a\u2028b", "\u2028\u2029\u2028"},
+	"plain":                {"", "a", "plain text", "job", "é", "日本語", "\U0001F600 smile", " leading", "trailing ", "0", "null", "true"},
+	"quote-backslash":      {`"`, `\`, `\"`, `"quoted"`, `back\slash`, `\\`, `a"b\c"`, `\u0041`, "'single'", `\n (literal backslash n)`, `end\`},
+	"control":              {"\x00", "\x01\x02", "\n", "\r\n", "\t", "\b\f", "\x1f", "\x7f", "a\x00b", "line1\nline2", "\x1b[31mred\x1b[0m", "\a\v"},
+	"invalid-utf8":         {"\xff", "\xc3\x28", "\xed\xa0\x80", "a\xffb\xfe", "\xf0\x28\x8c\x28", "\xc0\xaf", "ok\x80", "\xe2\x82"},
+	"u2028":                {"\u2028", "\u2029", "a\u2028b", "\u2028\u2029\u2028"},
 	"nonprintable-unicode": {"\u00ad", "\ufeff", "\ufffd", "\U000E0001", "\u200b", "\u0085", "\U0010FFFF", "\ufffe"},
-	"long":            {strings.Repeat("x", 70000), strings.Repeat("long line ", 3000), strings.Repeat("y", 4097)},
-	"json-lookalike":  {`{"a":1}`, `]}}`, `],[`, `","`, `":"`, `[1,2]`, `}`, `{`, `<script>&amp;</script>`, `,`, `:`},
+	"long":                 {strings.Repeat("x", 70000), strings.Repeat("long line ", 3000), strings.Repeat("y", 4097)},
+	"json-lookalike":       {`{"a":1}`, `]}}`, `],[`, `","`, `":"`, `[1,2]`, `}`, `{`, `<script>&amp;</script>`, `,`, `:`},
 }
 
 func classOf(r *rand.Rand) string { return stringClasses[r.Intn(len(stringClasses))] }
